@@ -3,6 +3,8 @@ package main
 import (
 	"fmt"
 	"go/constant"
+	"go/token"
+	"regexp"
 	"sort"
 	"strings"
 
@@ -231,7 +233,7 @@ func checkValueSpecs(a *A, cd *codec, specs []valueSpec) {
 			pos := w.pos(cd.valFn.Pos())
 			for _, ret := range successReturns(rv, 2) {
 				for _, alt := range returnAlts(cd, rv, ret) {
-					c, t := alt[0], alt[1]
+					c, t := alt[0], canonSignExt(alt[1])
 					if old, dup := got[c]; dup && old != t {
 						t = old + " | " + t
 					}
@@ -302,36 +304,45 @@ func c10R4(a *A, cd *codec) {
 		return
 	}
 	ints := map[string]bool{"TypeTiny": true, "TypeShort": true, "TypeInt24": true, "TypeLong": true, "TypeLongLong": true}
+	// uses: the first instruction, in code executable under the binding, that makes something depend on the flag. Copies
+	// of the flag (conversions to a named bool type, negation, boolean operators, phis) only pass it on: what they
+	// produce is followed instead.
 	var uses func(fn *ssa.Function, flag ssa.Value, bind map[ssa.Value]constant.Value, depth int) ssa.Instruction
 	uses = func(fn *ssa.Function, flag ssa.Value, bind map[ssa.Value]constant.Value, depth int) ssa.Instruction {
 		r := specializeAt(fn, bind, cd.tables, 0)
 		var found ssa.Instruction
-		for _, b := range fn.Blocks {
-			if !r.Exec[b] || found != nil {
+		tainted := map[ssa.Value]bool{flag: true}
+		work := []ssa.Value{flag}
+		for len(work) > 0 && found == nil {
+			v := work[len(work)-1]
+			work = work[:len(work)-1]
+			if v.Referrers() == nil {
 				continue
 			}
-			for _, in := range b.Instrs {
+			for _, in := range *v.Referrers() {
 				if found != nil {
 					break
 				}
-				var ops []*ssa.Value
-				hit := false
-				for _, op := range in.Operands(ops) {
-					if op != nil && *op == flag {
-						hit = true
+				if in.Block() == nil || !r.Exec[in.Block()] {
+					continue
+				}
+				switch x := in.(type) {
+				case *ssa.DebugRef:
+					continue
+				case *ssa.ChangeType, *ssa.Convert, *ssa.Phi, *ssa.BinOp, *ssa.UnOp:
+					if u, isU := x.(*ssa.UnOp); isU && u.Op != token.NOT {
+						found = in
+						continue
 					}
-				}
-				if !hit {
+					if val := x.(ssa.Value); !tainted[val] {
+						tainted[val] = true
+						work = append(work, val)
+					}
 					continue
-				}
-				if _, isDbg := in.(*ssa.DebugRef); isDbg {
-					continue
-				}
-				if c, ok := in.(*ssa.Call); ok && depth < maxInline {
-					if cal := c.Common().StaticCallee(); cal != nil && cal.Blocks != nil && cal.Pkg == fn.Pkg && cal != fn {
+				case *ssa.Call:
+					if cal := x.Common().StaticCallee(); cal != nil && cal.Blocks != nil && cal.Pkg == fn.Pkg && cal != fn && depth < maxInline && !x.Common().IsInvoke() {
 						sub := map[ssa.Value]constant.Value{}
-						var inner ssa.Instruction
-						for i, arg := range c.Common().Args {
+						for i, arg := range x.Common().Args {
 							if i >= len(cal.Params) {
 								break
 							}
@@ -339,14 +350,13 @@ func c10R4(a *A, cd *codec) {
 								sub[cal.Params[i]] = l.v
 							}
 						}
-						for i, arg := range c.Common().Args {
-							if i < len(cal.Params) && arg == flag {
+						for i, arg := range x.Common().Args {
+							if i < len(cal.Params) && arg == v {
 								if u := uses(cal, cal.Params[i], sub, depth+1); u != nil {
-									inner = u
+									found = u
 								}
 							}
 						}
-						found = inner
 						continue
 					}
 				}
@@ -377,4 +387,30 @@ func c10R4(a *A, cd *codec) {
 	if n < 10 {
 		a.undecided(rule, "flag-scope@types", w.pos(f.Pos()), "only %d non-integer column types found in the value decoder (expected at least 10): shape not recognised", n)
 	}
+}
+
+// canonSignExt rewrites the shift form of a sign extension into the conversion form the tables use:
+// int64(x<<k)>>k (arithmetic shift of the signed value) is int64(intN(x)) for N = 64-k in {8,16,32}, and x for k = 0.
+var (
+	signExtRe  = regexp.MustCompile(`\(>> conv<int64>\(\(<< (.+?) (\d+)\)\) (\d+)\)`)
+	signExt0Re = regexp.MustCompile(`\(>> (conv<int64>\([^()]*(?:\([^()]*\)[^()]*)*\)) 0\)`)
+)
+
+func canonSignExt(t string) string {
+	t = signExt0Re.ReplaceAllString(t, "$1")
+	return signExtRe.ReplaceAllStringFunc(t, func(m string) string {
+		sm := signExtRe.FindStringSubmatch(m)
+		if sm == nil || sm[2] != sm[3] {
+			return m
+		}
+		switch sm[2] {
+		case "56":
+			return "conv<int64>(conv<int8>(" + sm[1] + "))"
+		case "48":
+			return "conv<int64>(conv<int16>(" + sm[1] + "))"
+		case "32":
+			return "conv<int64>(conv<int32>(" + sm[1] + "))"
+		}
+		return m
+	})
 }
